@@ -213,7 +213,8 @@ fn fixed_values() -> Vec<FieldValue> {
         l(vec![l(vec![]), FieldValue::Null]),
         l(vec![l(vec![l(vec![i(1)])])]),
         l(vec![l(vec![l(vec![FieldValue::Null])]), FieldValue::Null]),
-        // enum leaves at positions where short-circuiting decides whether the panic is reached
+        // enum leaves before/after the short-circuit points of `all` (regression streams of F-14:
+        // the enum arm of is_valid_value was `unimplemented!`; it is `false` now)
         l(vec![e()]),
         l(vec![i(1), e()]),
         l(vec![FieldValue::Null, e()]),
@@ -314,7 +315,7 @@ impl Prop for C17 {
         "C17"
     }
     fn rule(&self) -> &'static str {
-        "Types: every nullability combination over the base names Int, String, Float, Boolean, Vertex for 0..3 list levels (quick; 0..4 thorough), plus a sparse stream at 28, 29 and 30 list levels and the panic boundary (31 levels through new_list_type and through parse/from_type of a 31-deep text). Requests: all ORDERED PAIRS of the exhaustive types as (ty-intersect a b), (ty-sub parent child), (ty-eqnull a b) — a pair is non-trivial (nt:same-base-depth) when both types have the same base name and list depth, so that the per-level nullability logic rather than the early mismatch exit decides; per type (ty-mk), (ty-info), (ty-display), (ty-aslist), (ty-withnull t 0|1), (ty-orderable) — non-trivial (nt:list) for list types; (ty-parse text) for every displayed text, a pool of malformed/odd texts and random one-character edits — non-trivial (nt:parse-structured) when the text contains a bracket or bang; (ty-valid t v) for every type against a value pool (fixed boundary values, enum leaves placed before/after short-circuit points, seeded random values to nesting depth 3, values generated to conform to sampled types and one-position mutations of them) — non-trivial (nt:valid-recursion) when both the type and the value are lists, or (nt:valid-accepted) when the answer is 1. ORACLE (on the implementation's own answers, over ALL pairs and ALL triples of every type mentioned in a request): intersect commutative / idempotent / associative / subtype of both inputs / greatest among common subtypes / none iff base or depth differ; is_scalar_only_subtype reflexive / antisymmetric / transitive; validity monotone along the subtype relation and intersection-valid iff valid for both, never panicking on enum-free values; equal_ignoring_nullability reflexive / symmetric / transitive / iff same base and depth / iff an intersection exists."
+        "Types: every nullability combination over the base names Int, String, Float, Boolean, Vertex for 0..3 list levels (quick; 0..4 thorough), plus a sparse stream at 28, 29 and 30 list levels and the panic boundary (31 levels through new_list_type and through parse/from_type of a 31-deep text). Requests: all ORDERED PAIRS of the exhaustive types as (ty-intersect a b), (ty-sub parent child), (ty-eqnull a b) — a pair is non-trivial (nt:same-base-depth) when both types have the same base name and list depth, so that the per-level nullability logic rather than the early mismatch exit decides; per type (ty-mk), (ty-info), (ty-display), (ty-aslist), (ty-withnull t 0|1), (ty-orderable) — non-trivial (nt:list) for list types; (ty-parse text) for every displayed text, a pool of malformed/odd texts and random one-character edits — non-trivial (nt:parse-structured) when the text contains a bracket or bang; (ty-valid t v) for every type against a value pool (fixed boundary values, enum leaves placed before/after short-circuit points, seeded random values to nesting depth 3, values generated to conform to sampled types and one-position mutations of them) — non-trivial (nt:valid-recursion) when both the type and the value are lists, or (nt:valid-accepted) when the answer is 1. ORACLE (on the implementation's own answers, over ALL pairs and ALL triples of every type mentioned in a request): intersect commutative / idempotent / associative / subtype of both inputs / greatest among common subtypes / none iff base or depth differ; is_scalar_only_subtype reflexive / antisymmetric / transitive; validity monotone along the subtype relation and intersection-valid iff valid for both, never panicking on any value (enum leaves included) and never accepting a value with an enum leaf; equal_ignoring_nullability reflexive / symmetric / transitive / iff same base and depth / iff an intersection exists."
     }
     fn generate(&self, tier: Tier, rng: &mut Rng) -> Vec<Case> {
         let max_depth = if tier == Tier::Quick { 3 } else { 4 };
@@ -721,12 +722,18 @@ fn c17_oracle(evaluated: &[Evaluated]) -> (Vec<OracleFailure>, serde_json::Value
                 Ok(true) => V::Yes,
                 Ok(false) => V::No,
                 Err(info) => {
-                    if !has_enum(v) {
-                        fail("valid-panics-on-enum-free-value", info, vec![reqv(&descs[i], v)]);
-                    }
+                    // is_valid_value is total: no value (enum leaves included) may make it panic
+                    fail("valid-panics", info, vec![reqv(&descs[i], v)]);
                     V::Panic
                 }
             };
+            if valid[i][x] == V::Yes && has_enum(v) {
+                fail(
+                    "valid-accepts-enum-leaf",
+                    format!("type {} value {}", descs[i].text(), render_value(v)),
+                    vec![reqv(&descs[i], v)],
+                );
+            }
         }
     }
     let mut mono_checked = 0u64;
